@@ -1,6 +1,5 @@
 \* repaired design (own proposal logged), validator 2 is proposer of (1,0); rounds 0, one height,
-\* one valid peer value, votes from peers 1 and 3; every crash point, up to 2 crashes
-\* Measured (5 inputs): 805,081 distinct states, depth 49.
+\* one valid peer value, votes from peers 1 and 3; every crash point, one crash or graceful stop (5 inputs); the 4-input configuration with 2 restarts runs in both tiers
 CONSTANTS
   NV = 4
   PowerOf <- DrvPowerOf
@@ -16,7 +15,7 @@ CONSTANTS
   MaxHeight = 1
   PropShift = 0
   MaxInputs = 5
-  MaxCrashes = 2
+  MaxCrashes = 1
   VotePeers = {1, 3}
   FutureH = 0
 INIT Init
